@@ -391,6 +391,11 @@ def write_evidence(check, prop, tier, seed, results, wall, nviol, known_hits, wa
         coverage.update(extra)
     if hasattr(check, "extra_evidence"):
         coverage.update(check.extra_evidence())
+    if "parallel_kernels_discovered" in coverage:
+        entered = sorted(k[len("region:"):] for k in probes if k.startswith("region:"))
+        names = sorted(x.rsplit(".", 1)[1] for x in coverage["parallel_kernels_discovered"])
+        coverage["parallel_kernels_entered"] = entered
+        coverage["parallel_kernels_not_entered"] = [x for x in names if x not in entered]
     ev = {
         "property_id": prop,
         "tier": tier,
